@@ -5,8 +5,8 @@ EXTENDS SliceSelAbs, Json, IOUtils, SequencesExt
 
 O(v) == IF v = NoneV THEN <<>> ELSE <<v>>          \* optional value as a 0/1-element sequence
 
-SliceRows == { [a |-> O(a), b |-> O(b), c |-> O(c), n |-> n, idx |-> PySlice(a, b, c, n)] :
-                 a \in Opt(-MaxN..MaxN), b \in Opt(-MaxN..MaxN), c \in Opt(1..MaxN), n \in 0..MaxN }
+SliceRows == { [a |-> O(a), b |-> O(b), c |-> O(c), n |-> n, idx |-> PySliceAny(a, b, c, n)] :
+                 a \in Opt(-MaxN..MaxN), b \in Opt(-MaxN..MaxN), c \in Opt(Steps), n \in 0..MaxN }
 
 PartSet == {PartInt(k) : k \in {-2, -1, 0, 1, 2, MaxN}} \cup {PartEmpty, PartNone, PartJunk}
 PartSeqs == UNION {[1..m -> PartSet] : m \in 1..4}
